@@ -1884,6 +1884,11 @@ def b5(repo: Repo) -> RuleResult:
             # generator form: next((name for name, member_ in self.members.items() if member_ is member), None)
             rn = getattr(p_, "ret_node", None)
             rv = rn.value if isinstance(rn, ast.Return) else rn
+            if isinstance(rv, ast.Call) and isinstance(rv.func, ast.Name) and rv.func.id == "next" and rv.args and isinstance(rv.args[0], ast.Name):
+                # the generator bound once to a local:  matched = (...); return next(matched, None)
+                bg_ = [a_ for a_ in ast.walk(fi.node) if isinstance(a_, (ast.Assign, ast.AnnAssign)) and a_.value is not None and any(isinstance(t_, ast.Name) and t_.id == rv.args[0].id for t_ in (a_.targets if isinstance(a_, ast.Assign) else [a_.target]))]
+                if len(bg_) == 1 and isinstance(bg_[0].value, (ast.GeneratorExp, ast.ListComp)):
+                    rv = ast.copy_location(ast.Call(func=rv.func, args=[bg_[0].value] + list(rv.args[1:]), keywords=rv.keywords), rv)
             if isinstance(rv, ast.Call) and isinstance(rv.func, ast.Name) and rv.func.id == "next" and rv.args and isinstance(rv.args[0], (ast.GeneratorExp, ast.ListComp)):
                 ge = rv.args[0]
                 g0 = ge.generators[0] if len(ge.generators) == 1 else None
